@@ -80,6 +80,60 @@ def handleWire (op : String) (args : List String) : Option String :=
       let t2' := if run true false ≠ run true true then ["empty-record-ref"] else []
       some (im ++ "\t" ++ sp ++ (if im ≠ sp then "\t" ++ ",".intercalate (t1 ++ t2') else ""))
     | _, _, _, _ => none
+  | "nat.check", [_name, _hist, h, e, t, v] =>
+    match bytesOfHex h, (Sexp.parse e).bind Env.ofSexp, (Sexp.parse t).bind Ty.ofSexp with
+    | some bs, some env, some ty =>
+      let m := match decodeArgs bs env [ty] false false with
+        | .ok [x] => "ok (" ++ x.canon ++ ")"
+        | .ok _ => "err"
+        | .err _ => "err"
+        | .panic s => "panic " ++ s
+      -- specification: the abstract value the Rust value denotes (converted by hand in the harness)
+      some (m ++ "\tok " ++ v)
+    | _, _, _ => none
+  | "nat.checkU", [_name, _hist, h, e, t, v] =>
+    match bytesOfHex h, (Sexp.parse e).bind Env.ofSexp, (Sexp.parse t).bind Ty.ofSexp with
+    | some bs, some env, some ty =>
+      let m := match decodeArgs bs env [ty] false false with
+        | .ok [x] => "ok (" ++ x.canonSorted ++ ")"
+        | .ok _ => "err"
+        | .err _ => "err"
+        | .panic s => "panic " ++ s
+      some (m ++ "\tok " ++ v)
+    | _, _, _ => none
+  | "nat.decode", [_name, h, e, t] =>
+    match bytesOfHex h, (Sexp.parse e).bind Env.ofSexp, (Sexp.parse t).bind Ty.ofSexp with
+    | some bs, some env, some ty =>
+      let run (a b : Bool) := match decodeArgs bs env [ty] a b with
+        | .ok [x] => "ok (" ++ x.canon ++ ")"
+        | .ok _ => "err"
+        | .err _ => "err"
+        | .panic s => "panic " ++ s
+      let im := run false false
+      let sp := run true true
+      let tup := match parseHeader bs with
+        | .ok (hd, _) => (match hd.args with
+            | w :: _ => tupleNonPositional (mergeEnv hd.table env [ty]).1 64 w ((mergeEnv hd.table env [ty]).2.headD ty)
+            | [] => false)
+        | _ => false
+      let tags := (if run false true ≠ sp then ["mu-opt"] else []) ++ (if run true false ≠ sp then ["empty-record-ref"] else [])
+        ++ (if tup then ["tuple-nonpositional"] else [])
+      some (im ++ "\t" ++ sp ++ "\t" ++ ",".intercalate tags)
+    | _, _, _ => none
+  | "nat.decodeU", [_name, h, e, t] =>
+    match bytesOfHex h, (Sexp.parse e).bind Env.ofSexp, (Sexp.parse t).bind Ty.ofSexp with
+    | some bs, some env, some ty =>
+      let run (a b : Bool) := match decodeArgs bs env [ty] a b with
+        | .ok [x] => "ok (" ++ x.canonSorted ++ ")"
+        | .ok _ => "err"
+        | .err _ => "err"
+        | .panic s => "panic " ++ s
+      let im := run false false
+      let sp := run true true
+      let tags := (if run false true ≠ sp then ["mu-opt"] else []) ++ (if run true false ≠ sp then ["empty-record-ref"] else [])
+      some (im ++ "\t" ++ sp ++ (if im ≠ sp then "\t" ++ ",".intercalate tags else ""))
+    | _, _, _ => none
+  | "nat.hl", [_name, _h] => some "hl\thl"
   | "wire.annotate", [fp, e, t, v] =>
     match (Sexp.parse e).bind Env.ofSexp, (Sexp.parse t).bind Ty.ofSexp, (Sexp.parse v).bind Val.ofSexp with
     | some env, some ty, some val =>
